@@ -150,9 +150,15 @@ def m2_compaction(F, r):
     if ufn is None:
         raise AnchorError(up)
     for flag in (False, True):
-        it = oe.Interp(F, up, {1: oe.ref(oe.sym("self")), 2: oe.ref(oe.sym("ctx")), 3: oe.ref(oe.sym("coord")), 4: oe.ref(oe.sym("input")), 5: oe.sym("error"), 6: ("bool", flag)},
-                       fresh=True, enum_results=True, observe=("::grow_nodes", "::insert"))
-        paths = it.explore(max_paths=512)
+        loop_blocks = set().union(*mir.natural_loops(ufn).values()) if mir.natural_loops(ufn) else set()
+        has_loop = any(t["callee"].endswith("Iterator::next") and bi in loop_blocks for bi, t in mir.calls(ufn))
+        paths = []
+        for length in ((0, 1, 2) if has_loop else (None,)):
+            it = oe.Interp(F, up, {1: oe.ref(oe.sym("self")), 2: oe.ref(oe.sym("ctx")), 3: oe.ref(oe.sym("coord")), 4: oe.ref(oe.sym("input")), 5: oe.sym("error"), 6: ("bool", flag)},
+                           fresh=True, enum_results=True, observe=("::grow_nodes", "::insert"), max_steps=3000 if has_loop else 800)
+            if length is not None:
+                oe.script_next(it, length)      # `for (coord, weights) in self.grow_nodes(..)`: evaluated over 0, 1 and 2 grown nodes
+            paths += it.explore(max_paths=512)
         grows = [p for p in paths if any(c[0] == "::grow_nodes" for c in p.calls)]
         inst = f"Network::update[is_new_input={flag}]"
         if not flag:
